@@ -8,6 +8,8 @@ pub mod c07;
 pub mod c12;
 pub mod c14;
 pub mod c15;
+pub mod c18;
+pub mod c19;
 pub mod c20;
 
 use crate::engine::Engine;
@@ -23,6 +25,8 @@ pub fn lookup(id: &str) -> Option<(&'static str, fn(&Engine))> {
         "C12" => ("C12", c12::run),
         "C14" => ("C14", c14::run),
         "C15" => ("C15", c15::run),
+        "C18" => ("C18", c18::run),
+        "C19" => ("C19", c19::run),
         "C20" => ("C20", c20::run),
         _ => return None,
     })
